@@ -4,8 +4,10 @@ import (
 	"fmt"
 	"go/token"
 	"go/types"
+	"regexp"
 	"sort"
 	"strings"
+	"sync"
 
 	"golang.org/x/tools/go/ssa"
 )
@@ -518,10 +520,33 @@ func (d *Describer) AtomsOf(fn *ssa.Function) map[string]*CondInfo {
 }
 
 // glob matches s against a pattern where '*' matches any substring.
+// In a pattern `*` matches any text — except the star of a pointer receiver in a function name,
+// "(*pkg.T).Method": that one is the literal character (it used to over-match, e.g. the key of
+// nil?parse(getLatestSTH(…)#0)#1 for a pattern meaning nil?(*T).getLatestSTH(…)#1).
+var recvStarRe = regexp.MustCompile(`\(\*([A-Za-z0-9_./\-]+\)\.)`)
+
+var globParts sync.Map // pattern → []string
+
+func globSplit(pat string) []string {
+	if v, ok := globParts.Load(pat); ok {
+		return v.([]string)
+	}
+	p := pat
+	if strings.Contains(p, "(*") {
+		p = recvStarRe.ReplaceAllString(p, "(\x00$1")
+	}
+	parts := strings.Split(p, "*")
+	for i := range parts {
+		parts[i] = strings.ReplaceAll(parts[i], "\x00", "*")
+	}
+	globParts.Store(pat, parts)
+	return parts
+}
+
 func glob(pat, s string) bool {
-	parts := strings.Split(pat, "*")
+	parts := globSplit(pat)
 	if len(parts) == 1 {
-		return pat == s
+		return parts[0] == s
 	}
 	if !strings.HasPrefix(s, parts[0]) {
 		return false
